@@ -754,6 +754,15 @@ func (interp *Interpreter) cfg(root *node, sc *scope, importPath, pkgName string
 					err = n.cfgErrorf("cannot use _ as value")
 					break
 				}
+				if isCall(src) && len(src.child) > 0 && src.child[0].typ != nil {
+					// Each operand on the right is single-valued.
+					if ft := src.child[0].typ; ft.cat == funcT || (ft.cat == valueT && ft.rtype.Kind() == reflect.Func) {
+						if k := ft.numOut(); k != 1 {
+							err = src.cfgErrorf("assignment mismatch: 1 variable but call returns %d values", k)
+							break
+						}
+					}
+				}
 				if n.anc.kind == constDecl && !src.rval.IsValid() {
 					err = src.cfgErrorf("initializer of constant %s is not a constant", dest.ident)
 					break
